@@ -87,7 +87,7 @@ def run(tier):
     n_mols = 0
     corpus = rdk.corpus()
     if tier == "quick":
-        corpus = corpus[::2]
+        corpus = rdk.quick_subset(corpus, 2)
     for name, smi in corpus:
         m0 = rdk.with_hs_and_maps(smi)
         if m0 is None or m0.GetNumAtoms() > 32:
